@@ -240,7 +240,7 @@ theorem kouJump_length_exact (init sigma mu lam etaUp etaDown pUp dt : ℝ) (jum
     (z : List ℝ) :
     (kouJump init sigma mu lam etaUp etaDown pUp dt jumps z).length
       = min z.length (jumps.length + 1) := by
-  simp [kouJump, arangeL_length, cumsumL_length, cumprodL_length, zeroFirst_length]
+  simp [kouJump, arangeL_length, cumsumL_length, zeroFirst_length]
 
 theorem kouJump_length (init sigma mu lam etaUp etaDown pUp dt : ℝ) (jumps : List (List ℝ))
     (z : List ℝ) (h : z.length ≤ jumps.length + 1) :
@@ -340,7 +340,7 @@ theorem kou_head (init sigma mu lam etaUp etaDown pUp dt : ℝ) (jumps : List (L
   cases z with
   | nil => exact absurd rfl hz
   | cons a as =>
-    simp only [kouJump, List.length_cons, arangeL_succ, List.map_cons, zeroFirst, cumsumL, cumprodL]
+    simp only [kouJump, List.length_cons, arangeL_succ, List.map_cons, zeroFirst, cumsumL]
     simp [Transc.exp]
 
 end PfVerif.C11
@@ -414,15 +414,7 @@ theorem kou_pos (init sigma mu lam etaUp etaDown pUp dt : ℝ) (jumps : List (Li
     (z : List ℝ) (h : 0 < init) :
     ∀ x ∈ kouJump init sigma mu lam etaUp etaDown pUp dt jumps z, 0 < x := by
   unfold kouJump
-  refine forall_mem_zipWith _ _ (fun i _ ca hca => ?_)
-  have hagg : 0 < ca.2 := by
-    refine cumprodL_pos _ ?_ ca.2 (List.of_mem_zip (a := ca.1) (b := ca.2) hca).2
-    intro y hy
-    simp only [List.mem_cons, List.mem_map] at hy
-    rcases hy with rfl | ⟨js, _, rfl⟩
-    · exact one_pos
-    · exact foldl_exp_pos js 1 one_pos
-  exact mul_pos (mul_pos (Real.exp_pos _) h) hagg
+  exact forall_mem_zipWith _ _ (fun i _ ca _ => mul_pos (Real.exp_pos _) h)
 
 theorem roughBergomi_price_pos (s0 v0 alpha rho eta dt norm : ℝ) (n : ℕ)
     (w1 : List (ℝ × ℝ)) (w2 : List ℝ) (h : 0 < s0) :
